@@ -16,7 +16,6 @@ import itertools
 import numpy as np
 import z3
 
-from .. import pysym
 from ..core import model_value
 from ..pysym import SymNum, fresh_int
 
